@@ -11,59 +11,95 @@ import (
 // templates met on the way (a callee that ends inside a tag or attribute has a clean record as a callee but must
 // keep failing when executed on its own).
 func checkEscapedMarkOnlyForAnalysed(p *Program, r *Report, rule string) {
-	tsp := p.SSAPkg("template")
-	n := 0
-	for _, f := range p.SrcFuncs() {
-		if f.Pkg != tsp && !(f.Parent() != nil && f.Parent().Pkg == tsp) {
-			continue
+	ts := discoverTmplStatus(p)
+	if ts.problem != "" {
+		r.Undec(rule, "template#marks-escaped", "", "the record of a successful analysis was not identified: "+ts.problem)
+		return
+	}
+	root := p.Func("template", "escapeTemplate")
+	// the stores that give the record its success value
+	var marks []*ssa.Store
+	for _, st := range ts.allStores {
+		f, _ := ts.statusFieldAddr(st.Addr)
+		v := ts.eval(st.Val, nil, nil, 0)
+		if v.kind == symUnknown || (v == ts.ok[f] && v != ts.fresh[f]) {
+			marks = append(marks, st)
 		}
-		short := strings.TrimPrefix(fnName(f), pkgTemplate+".")
-		for _, st := range storesToField(f, pkgTemplate, "Template", "escapeErr") {
-			u, ok := st.Val.(*ssa.UnOp)
-			if !ok {
-				continue
+	}
+	// targetOK: the template written through base (in f) is the one named by a string parameter of the root
+	// analysis (looked up in the set), or the root analysis's own template parameter
+	var targetOK func(f *ssa.Function, base ssa.Value, depth int) bool
+	targetOK = func(f *ssa.Function, base ssa.Value, depth int) bool {
+		if depth > 3 {
+			return false
+		}
+		if ex, isEx := base.(*ssa.Extract); isEx {
+			base = ex.Tuple
+		}
+		if lk, isLk := base.(*ssa.Lookup); isLk {
+			if prm, isP := lk.Index.(*ssa.Parameter); isP && isStringish(prm.Type()) {
+				return true
 			}
-			g, ok := u.X.(*ssa.Global)
-			if !ok || cname(g) != "errEscapeOK" {
-				continue
+			return false
+		}
+		prm, isP := base.(*ssa.Parameter)
+		if !isP || !isOurTmplPtr(prm.Type()) {
+			return false
+		}
+		if f == root {
+			return true
+		}
+		// a helper that marks the template handed to it: every caller must hand in the analysed one
+		idx := -1
+		for i, q := range f.Params {
+			if q == prm {
+				idx = i
 			}
-			n++
-			cn := short + "#marks-escaped"
-			pos := p.Pos(st.Pos())
-			fa := st.Addr.(*ssa.FieldAddr)
-			// the template marked: set[name] with name a string parameter of the function (the template analysed)
-			okTarget := false
-			base := fa.X
-			if ex, isEx := base.(*ssa.Extract); isEx {
-				base = ex.Tuple
-			}
-			if lk, isLk := base.(*ssa.Lookup); isLk {
-				if prm, isP := lk.Index.(*ssa.Parameter); isP && isStringish(prm.Type()) {
-					okTarget = true
-				}
-			}
-			if prm, isP := base.(*ssa.Parameter); isP && isOurTmplPtr(prm.Type()) {
-				okTarget = true
-			}
-			inLoop := false
-			for _, b := range f.Blocks {
-				for _, su := range b.Succs {
-					if su.Dominates(b) && su.Dominates(st.Block()) && blockReaches(st.Block(), b) {
-						inLoop = true
+		}
+		sites := 0
+		for _, g := range p.SrcFuncs() {
+			for _, b := range g.Blocks {
+				for _, in := range b.Instrs {
+					c, ok := in.(ssa.CallInstruction)
+					if !ok || staticCallee(c.Common()) != f || idx < 0 || idx >= len(c.Common().Args) {
+						continue
+					}
+					sites++
+					if !targetOK(g, c.Common().Args[idx], depth+1) {
+						return false
 					}
 				}
 			}
-			switch {
-			case inLoop:
-				r.Viol(rule, cn, pos, "templates are marked as escaped in a loop: a template that was only analysed as a callee (and may end inside a tag or attribute) becomes executable on its own", `{{define "F"}}<b title="{{.}}"{{end}} executed after a caller of F has been executed`)
-			case !okTarget:
-				r.Viol(rule, cn, pos, "the template marked as escaped is not the one named by the function's parameter (the one whose analysis just ended)", "")
-			default:
-				r.OK(rule, cn, pos, "marks the template whose analysis just ended, once")
+		}
+		return sites > 0
+	}
+	n := 0
+	for _, st := range marks {
+		f := st.Parent()
+		short := strings.TrimPrefix(fnName(f), pkgTemplate+".")
+		n++
+		cn := short + "#marks-escaped"
+		pos := p.Pos(st.Pos())
+		fa := st.Addr.(*ssa.FieldAddr)
+		okTarget := targetOK(f, fa.X, 0)
+		inLoop := false
+		for _, b := range f.Blocks {
+			for _, su := range b.Succs {
+				if su.Dominates(b) && su.Dominates(st.Block()) && blockReaches(st.Block(), b) {
+					inLoop = true
+				}
 			}
+		}
+		switch {
+		case inLoop:
+			r.Viol(rule, cn, pos, "templates are marked as escaped in a loop: a template that was only analysed as a callee (and may end inside a tag or attribute) becomes executable on its own", `{{define "F"}}<b title="{{.}}"{{end}} executed after a caller of F has been executed`)
+		case !okTarget:
+			r.Viol(rule, cn, pos, "the template marked as escaped is not the one named by the function's parameter (the one whose analysis just ended)", "")
+		default:
+			r.OK(rule, cn, pos, "marks the template whose analysis just ended, once")
 		}
 	}
 	if n == 0 {
-		r.Undec(rule, "template#marks-escaped", "", "no store of errEscapeOK found")
+		r.Undec(rule, "template#marks-escaped", "", "no store that records a successful analysis found")
 	}
 }
